@@ -51,7 +51,9 @@ RULES = {
            "scenarios (receiver + 1..2 transmitters + 1..3 application threads; hooks that lock and mutate; hook / transmit / "
            "unmarshal errors; cancel races) with every combination of choices inside sliding windows of 3 consecutive "
            "scheduling decisions, seeded random scenarios under seeded random schedules; distinct by line hash; every "
-           "trace counts as non-trivial (each contains lock sections of at least two threads)",
+           "trace counts as non-trivial (each contains lock sections of at least two threads); (c) debug HTTP handlers of the "
+           "generated MOTOR and DRIVER nodes (Rx and Tx): not served while the application holds the node lock, the lock is "
+           "held while a page is served (handshake inside the ResponseWriter), the page shows both signals of an update",
     "C14": "as C13 (incl. the forced model traces) plus schedules with a real 1 ms ticker (ticks nondeterministic, hidden Tick/TickTake inferred) and the "
            "whole-node scenarios with the generated DRIVER node (event exactly-once, toggles while parked/busy, receive "
            "order, failing rx hook / tx hook / unmarshal / transmit, cancel, K1) over a unix socket and net.Pipe; one case "
